@@ -200,6 +200,10 @@ def run_units(units, nproc=None, deadline_s=None):
             results[name] = run_unit(fn, args)
             results[name]['name'] = name
         return results
+    try:
+        dump.source_root()          # once, before the workers all ask for it
+    except Exception:   # noqa
+        pass
     ctx = mp.get_context('fork')
     t0 = time.time()
     with cf.ProcessPoolExecutor(max_workers=nproc, mp_context=ctx) as ex:
